@@ -34,6 +34,9 @@ import (
 //	N: like B plus the same column with other props ({default:"5" range:"0,1000"}), blank cells and a value 500
 //	O: like F (E2002), with the language option given as the empty string (whatever that means, it means the same
 //	   after any history)
+//	P: another ItemConf (same package, sheet, map and column names) whose map value nests a vertical list, with a key
+//	   repeated over two rows (legal: the rows aggregate)
+//	Q: the same names with a scalar-only map value and the same repeated key (E2005: uniqueness is deduced)
 //	K: GenConf on a hand-written proto file whose messages carry no (tableau.field) options at all (a plain string
 //	   field and a plain cross-cell struct field), same package
 func c16Call(name string, w *workspace) string {
@@ -65,6 +68,16 @@ func c16Call(name string, w *workspace) string {
 			return "protoerr " + errCode(err)
 		}
 		return "ok " + snapString(snapshot(w.Proto))
+	case "P", "Q":
+		rows := [][]string{{"ID", "Name", "PropID"}, {"map<uint32, Item>", "string", "[Prop]uint32"}, {"id", "name", "prop"}, {"1", "a", "10"}, {"1", "a", "11"}, {"2", "b", "20"}}
+		if name == "Q" {
+			rows = [][]string{{"ID", "Name", "PropID"}, {"map<uint32, Item>", "string", "uint32"}, {"id", "name", "prop"}, {"1", "a", "10"}, {"1", "a", "11"}, {"2", "b", "20"}}
+		}
+		w.writeCSVBook("", bookSpec{Name: "Game", Sheets: []sheetSpec{{Name: "ItemConf", Rows: rows}}})
+		if err := w.genProto(runOpts{}); err != nil {
+			return "protoerr " + errCode(err)
+		}
+		return outcome(tableau.GenConf("protoconf", w.In, w.Conf, confOpts("en")...))
 	case "J":
 		w.writeCSVBook("", bookSpec{Name: "Shop", Sheets: []sheetSpec{{Name: "ItemConf", Rows: [][]string{{"ID", "Name", "Price"},
 			{"map<uint32, Item>", "string", "{int32 Gold,int32 Gem}Price"}, {"id", "name", "price"}, {"1", "Sword", "10,2"}, {"2", "Shield", "7,1"}, {"3", "Bow", "4,4"}}}}})
@@ -206,7 +219,7 @@ func init() {
 	// e2e.C16.history: every history of ≤ 3 calls from the pool; the LAST call's outcome (files written, error)
 	// in a process that ran the whole history vs. in a fresh process.
 	regStream("e2e.C16.history", func(r *rand.Rand, n int, emit func(string, ...string)) {
-		pool := []string{"A", "B", "C", "D", "E", "F", "G", "H", "I", "J", "K", "L", "M", "N", "O"}
+		pool := []string{"A", "B", "C", "D", "E", "F", "G", "H", "I", "J", "K", "L", "M", "N", "O", "P", "Q"}
 		count := 0
 		for _, a := range pool {
 			for _, b := range pool {
